@@ -144,6 +144,9 @@ func ParseEnvelopedPrivateKey(priv *PrivateKey, enveloped []byte) (*PrivateKey, 
 	}
 	mode := cipher.NewECBDecrypter(block)
 	bytes := encryptedPrivateKey.RightAlign()
+	if len(bytes)%mode.BlockSize() != 0 {
+		return nil, errors.New("sm2: invalid private key size")
+	}
 	plaintext := make([]byte, len(bytes))
 	mode.CryptBlocks(plaintext, bytes)
 	// Do we need to check length in order to be compatible with some implementations with padding?
